@@ -661,3 +661,142 @@ def poly_of(e, atomizer, depth=0):
         if op == "Mul":
             return x * y
     return Poly.atom("?" + show(e0)[:60])
+
+
+# ---------------------------------------------------------------- decision tables of loop-free bodies
+
+def decision_paths(fn, limit=400):
+    """Enumerate the acyclic entry→return paths of a loop-free body, evaluating assignments
+    flow-sensitively into expression trees (parameters stay symbolic, calls stay opaque).
+    Returns [(conditions, result)] with conditions = [(discr_expr, chosen_value or None for `otherwise`,
+    all_arm_values)] and result = expression of the return place. Raises Inconclusive on loops."""
+    out = []
+
+    def ev_place(p, env):
+        l = p["l"]
+        if l in env:
+            e = env[l]
+        elif 1 <= l <= fn.arg_count:
+            e = ("arg", l, fn.names.get(l))
+        else:
+            raise Inconclusive("%s: read of a local without a definition on this path (_%d)" % (fn.path, l))
+        for el in p["p"]:
+            if el == "deref":
+                e = e[1] if e[0] == "ref" else ("deref", e)
+            elif isinstance(el, dict) and "f" in el:
+                nm = el["name"]
+                if e[0] == "checked" and nm == "0":
+                    e = ("bin", e[1], e[2], e[3], e[4])
+                elif e[0] == "checked" and nm == "1":
+                    e = ("overflowflag",)
+                elif e[0] == "agg" and nm in e[2]:
+                    e = e[2][nm]
+                elif e[0] == "tuple" and nm.isdigit() and int(nm) < len(e[1]):
+                    e = e[1][int(nm)]
+                else:
+                    e = ("field", e, nm, el.get("of"))
+            elif isinstance(el, dict) and "downcast" in el:
+                e = ("downcast", e, el["variant"] or el["downcast"])
+            else:
+                e = ("proj", e, str(el))
+        return e
+
+    def ev_op(o, env):
+        if "const" in o:
+            return fn.expr_of_operand(o)
+        if "rt" in o:
+            return ("rt", o["rt"])
+        return ev_place(o.get("copy") or o.get("move"), env)
+
+    def ev_rv(rv, env):
+        if "use" in rv:
+            return ev_op(rv["use"], env)
+        if "ref" in rv:
+            return ("ref", ev_place(rv["ref"], env), rv["mut"])
+        if "rawptr" in rv:
+            return ("ref", ev_place(rv["rawptr"], env), rv["mut"])
+        if "cast" in rv:
+            return ("cast", rv["kind"], ev_op(rv["cast"], env), rv["from"], rv["to"])
+        if "bin" in rv:
+            op = rv["bin"]
+            a, b = ev_op(rv["a"], env), ev_op(rv["b"], env)
+            if op.endswith("WithOverflow"):
+                return ("checked", op[:-len("WithOverflow")], a, b, rv["ty"])
+            return ("bin", op.replace("Unchecked", ""), a, b, rv["ty"])
+        if "un" in rv:
+            return ("un", rv["un"], ev_op(rv["a"], env))
+        if "discr" in rv:
+            return ("discr", ev_place(rv["discr"], env), rv.get("of"))
+        if "agg" in rv:
+            ops = [ev_op(o, env) for o in rv["ops"]]
+            k = rv["agg"]
+            if k == "adt":
+                names = rv.get("fields", [])
+                return ("agg", rv["adt"] + "::" + rv["variant"], {names[i] if i < len(names) else str(i): o for i, o in enumerate(ops)})
+            if k == "tuple":
+                return ("tuple", tuple(ops))
+            return ("aggx", k, tuple(ops))
+        return ("rvx", str(rv)[:60])
+
+    def go(bb, env, conds, seen):
+        if len(out) > limit:
+            raise Inconclusive("%s: too many paths" % fn.path)
+        if bb in seen:
+            raise Inconclusive("%s is not loop-free" % fn.path)
+        seen = seen | {bb}
+        env = dict(env)
+        blk = fn.blocks[bb]
+        for st in blk["stmts"]:
+            if st["k"] != "assign":
+                continue
+            v = ev_rv(st["rv"], env)
+            lhs = st["lhs"]
+            if not lhs["p"]:
+                env[lhs["l"]] = v
+            else:
+                # field update of an aggregate local: record as an updated aggregate when possible
+                base = env.get(lhs["l"])
+                el = lhs["p"][-1]
+                if base is not None and base[0] in ("agg",) and isinstance(el, dict) and "f" in el and len(lhs["p"]) == 1:
+                    d = dict(base[2])
+                    d[el["name"]] = v
+                    env[lhs["l"]] = ("agg", base[1], d)
+                else:
+                    env[("store", len(env))] = ("store", ev_place(lhs, env) if lhs["l"] in env or lhs["l"] <= fn.arg_count else None, v)
+        t = blk["term"]
+        k = t["k"]
+        if k == "return":
+            out.append((conds, env.get(0)))
+        elif k == "goto":
+            go(t["target"], env, conds, seen)
+        elif k == "switch":
+            d = ev_op(t["discr"], env)
+            allv = [v for v, _ in t["arms"]]
+            # constant discriminant: follow only the taken edge
+            if d[0] == "const" and isinstance(d[1], (int, bool)):
+                tgt = None
+                for v, b_ in t["arms"]:
+                    if v == int(d[1]):
+                        tgt = b_
+                go(tgt if tgt is not None else t["otherwise"], env, conds, seen)
+                return
+            done = set()
+            for v, b_ in t["arms"]:
+                go(b_, env, conds + [(d, v, allv)], seen)
+                done.add(b_)
+            if fn.blocks[t["otherwise"]]["term"]["k"] != "unreachable":
+                go(t["otherwise"], env, conds + [(d, None, allv)], seen)
+        elif k == "call":
+            args = tuple(ev_op(a, env) for a in t["args"])
+            name = t.get("resolved") or t.get("fn") or "?"
+            d = t["dest"]
+            if not d["p"]:
+                env[d["l"]] = ("call", name, args, t.get("fn"), (bb, d["l"]))
+            if t["target"] is not None:
+                go(t["target"], env, conds, seen)
+        elif k in ("assert", "drop"):
+            go(t["target"], env, conds, seen)
+        # unreachable / resume: path ends without a result
+
+    go(0, {}, [], frozenset())
+    return out
